@@ -1157,6 +1157,8 @@ class Interp:
                     raise Inapplicable("!r of symbolic value")
                 return format(repr(val), spec)
             raise Inapplicable("format conversion")
+        if hasattr(val, "sym_format"):
+            return val.sym_format(spec)
         if isinstance(val, (SInt, SBool)):
             return sformat_int(val, spec)
         if isinstance(val, SStr):
